@@ -233,7 +233,7 @@ func checkCLI(dir string, c cliCase) (o pbt.Outcome, err error) {
 				p = nonGap(rows[ref].Seq)
 			}
 			switch {
-			case ref < 0 || c.Start < 0 || c.Len < 0 || c.Start+c.Len > len(p) || !modeOK:
+			case ref < 0 || c.Start < 0 || c.Len < 0 || c.Len > len(p)-c.Start || !modeOK:
 				m = maskModel{Err: true}
 				o.Class("cli refwindow:refused")
 			case c.Len == 0:
@@ -301,6 +301,9 @@ func checkCLI(dir string, c cliCase) (o pbt.Outcome, err error) {
 			}
 		}
 		return
+	}
+	if c.Kind == "window" && sumOverflows(c.Start, c.Len) {
+		o.Class("cli window:start+length-overflows ref=%v", c.UseRef)
 	}
 	inputs := []gen.Ali{c.Ali}
 	models := []maskModel{plan(&o, c.Ali)}
